@@ -184,6 +184,32 @@ Example length_of_dotted_list_is_error :
           [Slip; Ref; Chk] = true.
 Proof. vm_compute; reflexivity. Qed.
 
+(* ---------------------------------------------------------------------------- case: key lists *)
+(* a clause is selected by MEMBERSHIP of the key in its key list and by nothing else; t and otherwise written inside a
+   key list are ordinary keys: such a clause is passed over unless the key is the object t / the symbol otherwise - in
+   every mode (the clause search does not depend on the mode) *)
+Lemma case_clause_by_membership : forall v ks body cls,
+  find_clause v ((ks, body) :: cls) = if existsb (case_key v) ks then Some body else find_clause v cls.
+Proof. reflexivity. Qed.
+Lemma case_t_in_key_list_is_a_key : forall v ks body cls,
+  val_eql v VT = false -> find_clause v ((DT :: ks, body) :: cls) = find_clause v ((ks, body) :: cls).
+Proof. intros v ks body cls H. simpl. rewrite H. reflexivity. Qed.
+Lemma case_otherwise_in_key_list_is_a_key : forall v ks body cls,
+  val_eql v (VSym "otherwise") = false ->
+  find_clause v ((DSym "otherwise" :: ks, body) :: cls) = find_clause v ((ks, body) :: cls).
+Proof. intros v ks body cls H. simpl. rewrite H. reflexivity. Qed.
+(* (case 1 ((t) (tr 1 1))) => nil, nothing traced; (case 5 ((1 otherwise) (tr 1 1)) (t (tr 3 3))) => 3, trace 3;
+   (case t ((1 t) (tr 1 1)) (t (tr 3 3))) => 1, trace 1 *)
+Example case_key_list_examples :
+  forallb (fun m =>
+    match run m 20 [ECase (I 1) [([DT], [ETr 1 (I 1)])] None],
+          run m 20 [ECase (I 5) [([DInt 1; DSym "otherwise"], [ETr 1 (I 1)])] (Some [ETr 3 (I 3)])],
+          run m 20 [ECase ET [([DInt 1; DT], [ETr 1 (I 1)])] (Some [ETr 3 (I 3)])] with
+    | (Ok VNil, s1), (Ok (VInt 3), s2), (Ok (VInt 1), s3) =>
+        match trace s1, trace s2, trace s3 with [], [3%Z], [1%Z] => true | _, _, _ => false end
+    | _, _, _ => false end) [Slip; Ref; Chk] = true.
+Proof. vm_compute; reflexivity. Qed.
+
 (* ---------------------------------------------------------------------------- zero values in single-value positions *)
 (* every place that takes ONE value from a form looks at the primary value only (in every mode; the place where a
    variable is bound: in the reference evaluator), and a form that returns NO value counts as nil there *)
